@@ -584,7 +584,12 @@ func genReentrant(r *hx.Rng) *gScen {
 	lazyTypes := []int{5, 7, 12}
 	p := g.addNode(lazyTypes[r.Intn(len(lazyTypes))], false)
 	g.sc.nodes[x].fetch = g.nameOf(p)
-	g.sc.nodes[p].slots["A0"] = "w" + g.nameOf(x)
+	if r.P(1, 3) {
+		// P does not wire G but looks it up by name from its own Init — while G is still in creation
+		g.sc.nodes[p].fetch = g.nameOf(x)
+	} else {
+		g.sc.nodes[p].slots["A0"] = "w" + g.nameOf(x)
+	}
 	switch r.Intn(7) {
 	case 0, 1, 2, 3:
 		g.sc.nodes[x].early = 1
